@@ -1,4 +1,5 @@
 import TxV.Core.Families
+import TxV.Core.AcceptComplete
 import TxV.Core.Example
 import TxV.Core.ExampleReject
 /-!
@@ -103,8 +104,18 @@ theorem accept_nonexclusive_multi (k : Nat) : accept (famNonexcl k) (fun t => t)
 theorem accept_nonexclusive_no_double_call (h : ∀ c ∈ D.allCalls, D.nonexcl c.callee = true) : NoDoubleCall D :=
   noDoubleCall_of_nonexclusive h
 
--- OBLIGATION c11_complete_partial : PARTIAL converse ("designs free of these defects elaborate successfully"): proved for designs without relations and single_caller flags — well-formed, call chains bounded, no self call, no double call, injective order ⇒ accept. NOT proved: the converse for designs with relations (needs construction of a topological order for an acyclic priority graph)
-theorem c11_complete_partial (ord : Nat → Nat) (hwf : D.WF) (hb : Bounded D) (hs : NoSelfCall D)
+-- OBLIGATION c11_complete : converse ("designs free of these defects elaborate successfully"), every design: well-formed extraction, bounded call chains (no method calls itself), no double call, no same-transaction conflict on non-exclusive paths, acyclic priority constraints, single_caller respected, no ready-dependency on a conflict neighbour ⇒ some priority order exists for which accept is true; together with c11_sound an equivalence
+theorem c11_complete :
+    (∃ ord, accept D ord = true) ↔
+      (D.WF ∧ Bounded D ∧ NoDoubleCall D ∧ SameTransOk D ∧ (∀ x, ¬ PgrPath D x x) ∧ SingleCallerOk D ∧
+        NoReadyDepConflict D (cgrOf D)) :=
+  accept_exists_iff
+
+-- OBLIGATION c11_accept_iff : for a given order, accept is true exactly when the declarative acceptance facts hold (every checker is sound and complete)
+theorem c11_accept_iff {ord : Nat → Nat} : accept D ord = true ↔ AcceptFacts D ord := accept_iff
+
+-- OBLIGATION c11_complete_norels : special case used by the positive families: a design without relations and single_caller flags is accepted as soon as its call structure is sound
+theorem c11_complete_norels (ord : Nat → Nat) (hwf : D.WF) (hb : Bounded D) (hs : NoSelfCall D)
     (hd : NoDoubleCall D) (hr : ∀ b, (D.body b).rels = []) (hsc : ∀ b, (D.body b).singleCaller = false)
     (hinj : OrdInj D ⟨ord, cgrOf D⟩) : accept D ord = true :=
   accept_of_norels ord hwf hb hs hd hr hsc hinj
@@ -143,4 +154,6 @@ end TxV.Core
 #print axioms TxV.Core.accept_exclusive_alternatives_paths
 #print axioms TxV.Core.accept_nonexclusive_multi
 #print axioms TxV.Core.accept_nonexclusive_no_double_call
-#print axioms TxV.Core.c11_complete_partial
+#print axioms TxV.Core.c11_complete
+#print axioms TxV.Core.c11_accept_iff
+#print axioms TxV.Core.c11_complete_norels
